@@ -710,4 +710,55 @@ def run(ctx):
     rule_M4(ctx, fx)
 
 
-SELFTEST = []
+# Self-test catalogue: one textual edit each, applied to a scratch copy (see selftest.py).
+_T = "phyclone/tree/tree.py"
+_N = "phyclone/tree/tree_node.py"
+_PT = "phyclone/process_trace/process_trace.py"
+SELFTEST = [
+    # ---- M1: mutate -> refresh
+    {"name": "M1-remove_subtree-no-refresh", "kind": "break", "rule": "M1", "file": _T, "old": "            self._graph.remove_nodes_from(indices_to_remove)\n            self._update_path_to_root(parent_node.node_id)\n", "new": "            self._graph.remove_nodes_from(indices_to_remove)\n"},
+    {"name": "M1-from_dict_nx-no-update", "kind": "break", "rule": "M1", "file": _PT, "old": "        new._internal_add_data_point_to_node(True, data[idx], node)\n\n    new.update()\n", "new": "        new._internal_add_data_point_to_node(True, data[idx], node)\n"},
+    {"name": "M1-public-add-passes-build_add", "kind": "break", "rule": "M1", "file": _T, "old": "self._internal_add_data_point_to_node(False, data_point, node)", "new": "self._internal_add_data_point_to_node(True, data_point, node)"},
+    {"name": "M1-guard-direction", "kind": "break", "rule": "M1", "file": _T, "old": "            if not build_add:\n", "new": "            if build_add:\n"},
+    {"name": "M1-refresh-before-children-moved", "kind": "break", "rule": "M1", "edits": [
+        {"file": _T, "old": "        self._graph.add_edge(root_idx, node_idx, None)\n\n        for child in children:", "new": "        self._graph.add_edge(root_idx, node_idx, None)\n\n        self._update_path_to_root(node)\n\n        for child in children:"},
+        {"file": _T, "old": "        self._last_node_added_to = node\n\n        self._update_path_to_root(node)\n\n        return node", "new": "        self._last_node_added_to = node\n\n        return node"}]},
+    {"name": "M1-get_subtree-no-update", "kind": "break", "rule": "M1", "file": _T, "old": "            new._add_node_to_indices(node, node_idx)\n\n        new.update()\n", "new": "            new._add_node_to_indices(node, node_idx)\n"},
+    {"name": "M1-single_node_tree-no-update", "kind": "break", "rule": "M1", "file": _T, "old": "        _ = tree._add_list_of_data_points_to_node(data, node)\n\n        tree.update()\n", "new": "        _ = tree._add_list_of_data_points_to_node(data, node)\n"},
+    {"name": "M1-early-return-skips-refresh", "kind": "break", "rule": "M1", "file": _T, "old": "            self._graph[node_idx].remove_data_point(data_point)\n\n            self._update_path_to_root(node)", "new": "            self._graph[node_idx].remove_data_point(data_point)\n\n            if len(self._data[node]) == 0:\n                return\n            self._update_path_to_root(node)"},
+    # ---- M2: refresh starts low enough
+    {"name": "M2-remove-refreshes-from-parent", "kind": "break", "rule": "M2", "file": _T, "old": "            self._graph[node_idx].remove_data_point(data_point)\n\n            self._update_path_to_root(node)", "new": "            self._graph[node_idx].remove_data_point(data_point)\n\n            self._update_path_to_root(self.get_parent(node))"},
+    {"name": "M2-create_root-refreshes-root-only", "kind": "break", "rule": "M2", "file": _T, "old": "        self._update_path_to_root(node)\n\n        return node", "new": "        self._update_path_to_root(self._ROOT_NODE_NAME)\n\n        return node"},
+    {"name": "M2-add_subtree-refreshes-root-only", "kind": "break", "rule": "M2", "file": _T, "old": "        self._last_node_added_to = subtree._last_node_added_to\n\n        self._update_path_to_root(parent_node.node_id)", "new": "        self._last_node_added_to = subtree._last_node_added_to\n\n        self._update_path_to_root(self._ROOT_NODE_NAME)"},
+    {"name": "M2-remove_subtree-refreshes-grandparent", "kind": "break", "rule": "M2", "file": _T, "old": "            parent_idx = self._node_indices[parent]\n            parent_node = self._graph[parent_idx]\n\n            sub_root_idx", "new": "            parent_idx = self._node_indices[self.get_parent(parent)]\n            parent_node = self._graph[parent_idx]\n\n            sub_root_idx"},
+    {"name": "M3-add-log_r-wrong-sign", "kind": "break", "rule": "M2", "file": _N, "old": "        self.log_p += data_point.value\n        self.log_r += data_point.value", "new": "        self.log_p += data_point.value\n        self.log_r -= data_point.value"},
+    # not breaking: every caller of add_data_point_list refreshes from the node itself or fully (M2 derives this)
+    {"name": "benign-add-list-forgets-log_r", "kind": "benign", "file": _N, "old": "            log_p += data_point.value\n            log_r += data_point.value", "new": "            log_p += data_point.value"},
+    # ---- M3: payload arithmetic
+    {"name": "M3-remove-adds", "kind": "break", "rule": "M3", "file": _N, "old": "        self.log_p -= data_point.value", "new": "        self.log_p += data_point.value"},
+    {"name": "M3-remove-keeps-membership", "kind": "break", "rule": "M3", "file": _N, "old": "        self.data_points.discard(dp_idx)", "new": "        self.data_points.add(dp_idx)"},
+    {"name": "M3-add-list-rebinds-instead-of-in-place", "kind": "break", "rule": "M3", "file": _N, "old": "            log_p += data_point.value\n            log_r += data_point.value", "new": "            log_p = log_p + data_point.value\n            log_r += data_point.value"},
+    # ---- M4: deep copies
+    {"name": "M4-copy-payload-not-copied", "kind": "break", "rule": "M4", "file": _T, "old": "            new._graph[node_idx] = new._graph[node_idx].copy()\n\n        return new", "new": "            new._graph[node_idx] = new._graph[node_idx]\n\n        return new"},
+    {"name": "M4-copy-loop-skips-first-payload", "kind": "break", "rule": "M4", "file": _T, "old": "        for node_idx in new._graph.node_indices():\n            new._graph[node_idx] = new._graph[node_idx].copy()\n\n        return new", "new": "        for node_idx in new._graph.node_indices()[1:]:\n            new._graph[node_idx] = new._graph[node_idx].copy()\n\n        return new"},
+    {"name": "M4-add_subtree-no-copy", "kind": "break", "rule": "M4", "file": _T, "old": "        subtree = subtree.copy()\n\n        # Connect subtree", "new": "        # Connect subtree"},
+    {"name": "M4-to_dict-shares-data-lists", "kind": "break", "rule": "M4", "file": _T, "old": "            \"node_data\": {k: v.copy() for k, v in self._data.items()},", "new": "            \"node_data\": {k: v for k, v in self._data.items()},"},
+    {"name": "M4-node-copy-shares-log_r", "kind": "break", "rule": "M4", "file": _N, "old": "        new.log_r = self.log_r.copy()", "new": "        new.log_r = self.log_r"},
+    {"name": "M4-get_subtree-shares-data-list", "kind": "break", "rule": "M4", "file": _T, "old": "            new._data[node] = list(self._data[node])", "new": "            new._data[node] = self._data[node]"},
+    {"name": "M4-from_dict-map-not-copied", "kind": "break", "rule": "M4", "file": _T, "old": "        new._node_indices = tree_dict[\"node_idx\"].copy()", "new": "        new._node_indices = tree_dict[\"node_idx\"]"},
+    {"name": "M4-copy-shares-data-lists", "kind": "break", "rule": "M4", "file": _T, "old": "        new._data.update({k: v.copy() for k, v in self._data.items()})", "new": "        new._data.update(self._data)"},
+    # ---- benign
+    {"name": "benign-full-update-instead-of-path", "kind": "benign", "file": _T, "old": "            self._graph[node_idx].remove_data_point(data_point)\n\n            self._update_path_to_root(node)", "new": "            self._graph[node_idx].remove_data_point(data_point)\n\n            self.update()"},
+    {"name": "benign-rename-node_idx", "kind": "benign", "file": _T, "old": "            node_idx = self._node_indices[node]\n            self._graph[node_idx].remove_data_point(data_point)", "new": "            ix = self._node_indices[node]\n            self._graph[ix].remove_data_point(data_point)"},
+    {"name": "benign-refresh-helper-extracted", "kind": "benign", "edits": [
+        {"file": _T, "old": "            self._graph[node_idx].remove_data_point(data_point)\n\n            self._update_path_to_root(node)", "new": "            self._graph[node_idx].remove_data_point(data_point)\n\n            self._refresh_from(node)"},
+        {"file": _T, "old": "    def remove_data_point_from_outliers(self, data_point):", "new": "    def _refresh_from(self, start):\n        self._update_path_to_root(start)\n\n    def remove_data_point_from_outliers(self, data_point):"}]},
+    {"name": "benign-add-refreshes-from-node", "kind": "benign", "file": _T, "old": "                self._update_path_to_root(self.get_parent(node))", "new": "                self._update_path_to_root(node)"},
+    {"name": "benign-add_subtree-refresh-by-parent-name", "kind": "benign", "file": _T, "old": "        self._last_node_added_to = subtree._last_node_added_to\n\n        self._update_path_to_root(parent_node.node_id)", "new": "        self._last_node_added_to = subtree._last_node_added_to\n\n        self._update_path_to_root(parent)"},
+    {"name": "benign-payload-add-as-plain-assignment", "kind": "benign", "file": _N, "old": "        self.log_p += data_point.value\n        self.log_r += data_point.value", "new": "        v = data_point.value\n        self.log_r = v + self.log_r\n        self.log_p = self.log_p + v"},
+    {"name": "benign-copy-map-with-dict()", "kind": "benign", "file": _T, "old": "        new._node_indices = self._node_indices.copy()\n\n        new._node_indices_rev", "new": "        new._node_indices = dict(self._node_indices)\n\n        new._node_indices_rev"},
+    {"name": "benign-print-and-split", "kind": "benign", "file": _T, "old": "        self._graph.add_edge(root_idx, node_idx, None)\n\n        for child in children:", "new": "        print(\"new root\", node)\n        g = self._graph\n        g.add_edge(root_idx, node_idx, None)\n\n        for child in children:"},
+    {"name": "benign-remove-also-adjusts-log_r-and-refreshes-from-parent", "kind": "benign", "edits": [
+        {"file": _N, "old": "        self.log_p -= data_point.value", "new": "        self.log_p -= data_point.value\n        self.log_r -= data_point.value"},
+        {"file": _T, "old": "            self._graph[node_idx].remove_data_point(data_point)\n\n            self._update_path_to_root(node)", "new": "            self._graph[node_idx].remove_data_point(data_point)\n\n            self._update_path_to_root(self.get_parent(node))"}]},
+]
